@@ -629,7 +629,6 @@ func c18JSON(v *verifOut, st c18Set, settings Settings, evs []c18Event, o c18Opt
 		return
 	}
 	var scens []Scenario
-	var codes []uint64
 	for _, e := range evs {
 		if e.kind == c18Scen {
 			if err := wr.WriteScenario(e.scen); err != nil {
@@ -637,7 +636,6 @@ func c18JSON(v *verifOut, st c18Set, settings Settings, evs []c18Event, o c18Opt
 				return
 			}
 			scens = append(scens, e.scen)
-			codes = append(codes, e.code)
 		}
 	}
 	if err := wr.Close(); err != nil {
@@ -700,7 +698,6 @@ func c18JSON(v *verifOut, st c18Set, settings Settings, evs []c18Event, o c18Opt
 	v.Seen(fmt.Sprintf("json %v %v", st, meta["seed"]), n >= 2 && views >= 1, nil)
 	// the decoded sequence is checked against the model as well: Remaining() of the JSON source counts
 	// down from the number written, which for a complete drain is the generator's own count-down
-	_ = codes
 	shuf := "None"
 	if seed, ok := meta["seed"].(int64); ok && n > 0 {
 		perm, offs := c18ShuffleOracle(seed, n, views)
